@@ -104,6 +104,18 @@ CLAIMED = {
         technique="HIR match-arm tables + MIR data/selecting-control dependence queries",
         design_ref="DESIGN.md section 4 C28",
     ),
+    "C30": dict(
+        level="other",
+        text="type_check carries no state across instructions (no local defined before the loop is written in it; every checker call receives only the current instruction and program.memory_regions), so the verdict is per-instruction and invariant under reordering/duplication; should_be_real names every Expression variant explicitly, recurses into every child and propagates every verdict to its result, rejects Variable and looks Address up; every (frame, expression) instruction kind - computed from the ADT definitions - has its expression passed to should_be_real; no name constant is compared in the checker (renaming invariance). The scalar typing tables of classical instructions are not decided.",
+        technique="loop-carried-state + argument-provenance analysis over MIR; type-directed coverage with verdict-propagation check",
+        design_ref="DESIGN.md section 4 C30",
+    ),
+    "C33": dict(
+        level="other",
+        text="Template conformance of Program::wrap_in_loop read from the un-expanded source: early returns for 0 and 1; otherwise DECLARE counter INTEGER, MOVE counter <- iterations, LABEL start, <body>, SUB counter 1, JUMP-WHEN start counter in this order on a clone_without_body_instructions of self, all counter operands naming the caller's reference; clone_without_body_instructions clones every non-body field. The step from this template to 'body runs exactly n times' is a fixed four-line argument; execution itself is not decided.",
+        technique="syntactic template extraction (syn) + MIR field provenance",
+        design_ref="DESIGN.md section 4 C33",
+    ),
     "C34": dict(
         level="other",
         text="Traversal completeness and uniqueness mechanisms decided structurally: resolve_placeholders resolves every body variant holding a Target explicitly and routes the rest through get_qubits_mut, which (like get_qubits) reads every Qubit-holding field of every body-capable variant; get_targets covers the same Target variants; default_target_resolver loops on membership in the avoid-set and inserts the chosen label on all paths, seeded from get_targets; default_qubit_resolver zips the IndexSet of placeholders with 0.. filtered by non-membership in the fixed-qubit set; the custom-resolver entry point resolves every instruction and rebuilds the cache. Placeholder identity semantics are not decided.",
